@@ -5,6 +5,8 @@
 (*   mid           the call is stopped at its last statement before the wait (MidPoint; for ensure_session   *)
 (*                 at the top of its sleep loop) while the connection is lost and `active` cleared, then     *)
 (*                 goes on                                                                                    *)
+(*   midlock       a channel request is stopped inside _event_pending, about to take Channel.lock, while the  *)
+(*                 connection is lost, then goes on                                                           *)
 (*   at_unlink / at_pclose / at_sockclose                                                                     *)
 (*                 the shutdown is stopped before that statement, the call is made and runs until it blocks  *)
 (*                 (or ends), then the shutdown goes on                                                       *)
@@ -13,7 +15,7 @@
 EXTENDS Shutdown
 VARIABLE plan
 
-Plans == {"before", "mid", "at_unlink", "at_pclose", "at_sockclose", "after"}
+Plans == {"before", "mid", "midlock", "at_unlink", "at_pclose", "at_sockclose", "after"}
 
 MidPoint(f) == CASE f = "chanreq" -> "req_clear"
                  [] f = "open" -> "oc_send"
@@ -23,8 +25,12 @@ MidPoint(f) == CASE f = "chanreq" -> "req_clear"
                  [] f = "srtauth" -> "es_sleep"     \* SERVICE_REQUEST is out, the answer is not in
                  [] OTHER -> "none"
 
+(* midlock: a channel request is stopped inside _event_pending, about to take Channel.lock *)
+LockPoint(f) == IF f = "chanreq" THEN "req_lock" ELSE "none"
+PointOf(p, f) == IF p = "midlock" THEN LockPoint(f) ELSE MidPoint(f)
+
 Settled(w) == wpc[w] = "done" \/ (Started(w) /\ ~ENABLED WStep(w))
-AtMid(w) == wpc[w] = MidPoint(Family(wapi[w]))
+AtMid(w) == wpc[w] = PointOf(plan[w], Family(wapi[w]))
 
 (* all callers of one run follow the same plan *)
 GInit == Init /\ \E p \in Plans : plan = [w \in W |-> p]
@@ -32,7 +38,7 @@ GInit == Init /\ \E p \in Plans : plan = [w \in W |-> p]
 GCall(w, a, m) ==
   /\ Call(w, a, m)
   /\ CASE plan[w] = "before" -> loss = "none"
-       [] plan[w] = "mid" -> loss = "none" /\ MidPoint(Family(a)) # "none"
+       [] plan[w] \in {"mid", "midlock"} -> loss = "none" /\ PointOf(plan[w], Family(a)) # "none"
        [] plan[w] = "at_unlink" -> tt = "sd_unlink"
        [] plan[w] = "at_pclose" -> tt = "sd_pclose" \/ cl = "cl_pclose"
        [] plan[w] = "at_sockclose" -> tt = "sd_sockclose"
@@ -41,7 +47,7 @@ GCall(w, a, m) ==
 GLose(k) ==
   /\ Lose(k)
   /\ \A w \in W : /\ plan[w] = "before" => Settled(w)
-                  /\ plan[w] = "mid" => AtMid(w)
+                  /\ plan[w] \in {"mid", "midlock"} => AtMid(w)
 
 Held(w, p) == plan[w] = p /\ ~Settled(w)
 GTT == /\ TTStep
@@ -51,7 +57,7 @@ GTT == /\ TTStep
 GCL == /\ CLStep
        /\ ~\E w \in W : cl = "cl_pclose" /\ Held(w, "at_pclose")
 GW(w) == /\ WStep(w)
-         /\ ~(plan[w] = "mid" /\ AtMid(w) /\ active)
+         /\ ~(plan[w] \in {"mid", "midlock"} /\ AtMid(w) /\ active)
 
 GNext == /\ \/ \E k \in LossKinds : GLose(k)
             \/ GTT \/ GCL
